@@ -172,12 +172,17 @@ impl UdpSocket {
     pub fn set_read_timeout(&self, _d: Option<Duration>) -> io::Result<()> {
         Ok(())
     }
+    /// Every attempt is recorded in the outbox. Like sendto(2), sending to port 0 fails
+    /// (EINVAL): nothing can be delivered there.
     pub fn send_to(&self, bytes: &[u8], to: SocketAddrV4) -> io::Result<usize> {
         net()
             .lock()
             .unwrap()
             .outbox
             .push_back((self.addr, to, bytes.to_vec()));
+        if to.port() == 0 {
+            return Err(io::Error::new(io::ErrorKind::InvalidInput, "sim: port 0"));
+        }
         Ok(bytes.len())
     }
     /// In lockstep mode this is the scheduling rendezvous: park until the harness grants a step.
